@@ -11,13 +11,21 @@ import (
 // transport (otelhttp over http.DefaultTransport) is replaced by the harness function
 // VerifRoundTrip(*http.Request) (*http.Response, error) of a package on the call stack.
 // Without such a function the remote end is unreachable (an error is returned).
-func (m *Machine) harnessRoundTrip(fr *frame, req Value) Value {
+// harnessFunc finds a harness-provided environment function in a package on the call stack.
+func (m *Machine) harnessFunc(fr *frame, name string) *ssa.Function {
 	for f := fr; f != nil; f = f.caller {
 		if f.fn.Pkg != nil {
-			if hf := f.fn.Pkg.Func("VerifRoundTrip"); hf != nil {
-				return m.callFunction(fr, hf, []Value{req}, nil)
+			if hf := f.fn.Pkg.Func(name); hf != nil {
+				return hf
 			}
 		}
+	}
+	return nil
+}
+
+func (m *Machine) harnessRoundTrip(fr *frame, req Value) Value {
+	if hf := m.harnessFunc(fr, "VerifRoundTrip"); hf != nil {
+		return m.callFunction(fr, hf, []Value{req}, nil)
 	}
 	et := m.lookupType("errors", "errorString")
 	cell := new(Value)
@@ -42,6 +50,19 @@ func addHTTPIntrinsics(t map[string]intrinsic) {
 			}
 			return m.harnessRoundTrip(fr, a[1])
 		}
+		// third-party / library functions behind the caching round tripper: provided by the harness
+		viaHarness := func(lib, name string) {
+			t[lib] = func(m *Machine, fr *frame, a []Value) Value {
+				hf := m.harnessFunc(fr, name)
+				if hf == nil {
+					m.unsupported("%s needs the harness function %s", lib, name)
+				}
+				return m.callFunction(fr, hf, a, nil)
+			}
+		}
+		viaHarness("github.com/pquerna/cachecontrol.CachableResponse", "VerifCachableResponse")
+		viaHarness("net/http/httputil.DumpResponse", "VerifDumpResponse")
+		viaHarness("net/http.ReadResponse", "VerifReadResponse")
 		t["(*go.opentelemetry.io/contrib/instrumentation/net/http/otelhttp.Transport).RoundTrip"] = func(m *Machine, fr *frame, a []Value) Value {
 			return m.harnessRoundTrip(fr, a[1])
 		}
